@@ -25,6 +25,8 @@ def run(tier, seed, replay=None):
     cases = load_replay_case(replay) if replay else at_cases() + timedcheck.op_cases(OPS, tier, rng)
     res = correspond(rep, "C07", cases, "C07 (relay_ok / passthru_ok on the timed model; remaining for the _at forms)")
     xcheck.cross_check(rep, "C07", cases, res, 40 if tier == "quick" else 400)
+    if not replay:
+        real_timer_cases(rep, "C07_never_early (the model's assumption about new_timer; delay / delay_subscription on the real timer)")
     c = rep.coverage
     hist = {}
     for _, _, t in cases:
@@ -40,6 +42,7 @@ def run(tier, seed, replay=None):
                  "observation = the first duration requested from the timer, in whole seconds")
     rep.assumptions = ["the executor is represented by explicit poll labels on the crate's hook scheduler: ANY task may be polled at ANY time, so every run "
                        "order of a FIFO pool or of a k-worker pool is a label sequence; the real LocalPool / ThreadPool are not run by this check",
-                       "virtual timer through NEW_TIMER_FN (crate built without the `timer` feature); time in whole milliseconds",
+                       "virtual timer through NEW_TIMER_FN (crate built without the `timer` feature); time in whole milliseconds; the real timer is run "
+                       "separately (harness_rt, feature on): delay / delay_subscription / timer / interval x 11 delays from 0 to Duration::MAX never early",
                        "the _at forms use the real Instant::now(); durations are compared in whole seconds"]
     return rep.finish()
